@@ -186,11 +186,13 @@ def check(c):
 
 @st.composite
 def sampled(draw, tier):
-    ncb = draw(st.integers(1, 3))
+    ncb = draw(st.integers(1, 3)) if draw(st.integers(0, 9)) else draw(st.integers(4, 6))
     c = {"type": draw(st.sampled_from(gen.TYPES)), "N": draw(st.integers(1, 6)), "B": draw(st.integers(1, 4)), "se": draw(st.integers(0, 3)),
-         "E": draw(st.integers(0, 4)), "cbs": [draw(st.sampled_from(["class", "lambda"])) for _ in range(ncb)], "time": draw(st.booleans()),
+         "E": draw(st.integers(0, 4)) if draw(st.integers(0, 9)) else draw(st.integers(9, 13)), "cbs": [draw(st.sampled_from(["class", "lambda"])) for _ in range(ncb)], "time": draw(st.booleans()),
          "seed": draw(st.integers(0, 2 ** 31 - 1)), "hooks_return": draw(st.booleans()), "nbs": draw(st.one_of(st.none(), st.integers(1, 6))),
          "cb_form": draw(st.sampled_from(["list", "list", "tuple"]))}
+    if draw(st.integers(0, 29)) == 0:
+        c.update(N=draw(st.integers(1025, 1300)), B=draw(st.sampled_from([400, 500, 1000])), E=c["se"] + draw(st.integers(1, 2)))     # a large data set
     mode = draw(st.sampled_from(["none", "preset", "inject", "inject", "inject"]))
     if mode == "preset":
         c["preset"] = True
